@@ -2376,6 +2376,10 @@ class FileSet:
         doy = args.pop("doy", None)
         if doy is not None:
             date = datetime(args["year"], 1, 1) + timedelta(doy - 1)
+            if doy < 1 or date.year != args["year"]:
+                # like datetime() does for month 13 or the 30th of February
+                raise ValueError(
+                    f"day of year {doy} is out of range for {args['year']}")
             args["month"] = date.month
             args["day"] = date.day
 
